@@ -1,5 +1,5 @@
 #!/bin/bash
-cd /verif
+cd "$(dirname "$0")/.."
 for c in $(python3 -c "import json; print(' '.join(x['property_id'] for x in json.load(open('MANIFEST.json'))['checks']))"); do
   s=$(date +%s)
   out=$(VERIF_SEED=1 ./check $c --tier thorough 2>&1 | grep "^check\|^VIOLATION\|^KNOWN\|problem" | tr '\n' ' ')
